@@ -1089,17 +1089,13 @@ func checkC10(in *exInput) []exFinding {
 	}
 	if !o.Skip {
 		// completeness, as for whole-specification expansion (C03): a `$ref` is left only at a node of a reference cycle
-		info := g.analyse()
 		for _, h := range exHolders(loc, kind, exDecode(res.Out), nil) {
 			t, ok := exCanonRef(loc, h.Ref)
 			if !ok {
 				continue
 			}
-			if t.Doc == loc {
-				t.Doc = g.Root
-			}
-			n := info.Nodes[t.String()]
-			if info.Acyclic || n == nil || !n.OnCycle {
+			// judged in the store itself (not through the analysis of the root, whose starting points need not reach the element)
+			if !s.refOnCycle(t, h.Kind) {
 				fs = append(fs, exFinding{Shape: exShape("entry-ref-not-on-cycle:"+in.Entry, g, o.Abs, in.Pointer),
 					What: fmt.Sprintf("%s (%s): `$ref` %q left at %s designates a node that is on no reference cycle of the input", in.Op, in.Entry, h.Ref, h.ptr()), Obs: t.String()})
 				return fs
@@ -1689,7 +1685,11 @@ func checkC16With(h *exHistory, fresh map[int]*exOutcome) []exFinding {
 			fs = append(fs, exFinding{Shape: "options-mutated", What: fmt.Sprintf("call %d (%s): the caller's options are modified", step, exCallLabel(c)), Obs: got.OptsChanged})
 		}
 		if d := exSameOutcome(c, fresh[i], got); d != "" {
-			fs = append(fs, exFinding{Shape: "history-changes-result", What: fmt.Sprintf("call %d of the history (%s %s) differs from the same call made first in a fresh process", step, exCallLabel(c), c.Ref), Obs: d})
+			shape := "history-changes-result"
+			if len(c.Docs) > 0 { // an outcome that depends on map order on a graph with a known defect is that defect, not hidden state
+				shape = exShape(shape, exCallGraph(c), c.Opts.Abs)
+			}
+			fs = append(fs, exFinding{Shape: shape, What: fmt.Sprintf("call %d of the history (%s %s) differs from the same call made first in a fresh process", step, exCallLabel(c), c.Ref), Obs: d})
 		}
 	}
 	// the built-in meta-schemas are still there, unmodified
